@@ -12,7 +12,7 @@ CFG = {
             "per block; siblings with EQUAL offsets = deliberate exact TD ties, also in chains), a random parent-closed arrival order "
             "(possibly of a parent-closed subset) split into InsertChain batches, re-deliveries, whole-ancestry batches, non-contiguous "
             "batches, Stop+reopen of a pruning node (reaches ErrPrunedAncestor: written without state while lighter, winners re-imported "
-            "when the branch overtakes); archive / pruning / header-first (InsertHeaderChain on a second chain instance); 30 MIXED histories per run (one chain fed "
+            "when the branch overtakes); archive / pruning / header-first (InsertHeaderChain on a second chain instance); 33 MIXED histories per run (one chain fed "
             "through both paths: blocks then lighter / equal / heavier header forks, headers first, interleaved) and 12 two-writer schedules "
             "(InsertChain of X vs the miner-style direct WriteBlockWithState of a lighter sibling M, first writer held inside its critical "
             "section by a gate database, both orders and free running). After EVERY call: TD recurrence for every "
